@@ -36,13 +36,19 @@ def run(ctx):
                     D1 = s.calc.diffusivity(*calc.interstitial_args(t))
                     add(cases, metas, s, {"D": (D0, D1)}, "interstitial|%s|%d" % (name, chem), "jump%d-%d" % (k, dec),
                         {"data": d, "class": k, "dec": dec})
-    vw = [("fcc", 0, 1, 1), ("hcp", 0, 2, 1), ("honeycomb", 0, 1, 1), ("b2", 0, 1, 1)]
+    # omega: two connected Wyckoff positions on the vacancy sublattice (solute site preference matters), no origin states
+    vw = [("fcc", 0, 1, 1), ("hcp", 0, 2, 1), ("honeycomb", 0, 1, 1), ("b2", 0, 1, 1), ("omega", 0, 1, 1)]
     if not quick:
         vw += [("square", 0, 1, 2), ("bcc", 0, 1, 1), ("polarrect", 1, 2, 1), ("hex2d", 0, 1, 2), ("fcc", 0, 1, 2)]
     for name, chem, shell, nth in vw:
         s = calc.vacancy(name, chem, shell, nth, rng)
         for rep in range(2 if quick else 6):
             d = calc.vacancy_data(s, rng, 0, 2)
+            if s.sizes["S"] > 1:
+                # a solute site preference between the inequivalent positions (and the matching LIMB barriers)
+                d["eneS"] = np.array(rng.sample(range(0, max(3, s.sizes["S"])), s.sizes["S"])) * calc.LN2
+                d.update(s.calc.makeLIMBpreene(**{k_: d[k_] for k_ in ("preV", "eneV", "preS", "eneS", "preSV", "eneSV",
+                                                                       "preT0", "eneT0")}))
             mode, kw = "default", {}
             if rep % 3 == 1:
                 d["eneT2"] = d["eneT2"] - 32 * calc.LN2
